@@ -92,9 +92,6 @@ Definition pat_size : pat := PSeq (pat_size_part 56) (pat_size_part 52).
 Lemma check_size : family_check event_dfa pat_size (fam_good 11) = true.
 Proof. vm_compute. reflexivity. Qed.
 
-Lemma not_in_app {A} (x : A) a b : ~ In x a -> ~ In x b -> ~ In x (a ++ b).
-Proof. intros Ha Hb H. apply in_app_or in H. tauto. Qed.
-
 Lemma size_part_no27 k a b : k <> 27 -> ~ In 27 ([91; k; 59] ++ (digits a ++ [59] ++ digits b) ++ [116]).
 Proof.
   intros Hk. repeat apply not_in_app; try apply no27; cbn; intuition (try discriminate; try congruence).
